@@ -281,7 +281,25 @@ C_TEMPLATES = [
     '\tsave\n\tsave\n\trestore\n',
     '\tsection\ts\n\tpublic\tx:{c}\n\tendsection\n',
     '\tread\tx\n',
+    # very long tokens where a position string, a name or an argument is copied around
+    '\tirp\tv,{L}\n\tbogus\n\tendm\n',
+    '\tirpc\tv,{L}\n\tbogus\n\tendm\n',
+    '\tirpn\t2,v,w,{L},1\n\tbogus\n\tendm\n',
+    'm1\tmacro\ta\n\tbogus\n\tendm\n\tm1\t{L}\n',
+    '{L}:\tbogus\n',
+    '{L}\tmacro\n\tbogus\n\tendm\n\t{L}\n',
+    '\tsection\t{L}\n\tbogus\n\tendsection\n',
+    '\tinclude\t"{L}"\n',
+    '\tmessage\t"{L}"\n\terror\t"{L}"\n',
+    'x\tequ\t{L}\n',
+    's{c}\tstruct\n{L}\tbyt\t?\n\tendstruct\n',
+    '\tbyt\t"{L}"\n',
+    '\tcharset\t{c},255,0\n\tbyt\t"a"\n',
+    '\tcharset\t255,{c}\n',
+    'x\tequ\tlab[parent{c}]\n',
+    '\tsection\ts1\nx\tequ\tlab[parent2]\n\tpublic\tlab:parent3\n\tendsection\n',
 ]
+LONG_TOKEN = 'Ab' * 650
 C_CPUS = ['6502', '68000']
 
 
@@ -368,11 +386,38 @@ def pool_e():
 # pool F: dasl
 
 N_DASL = 1500
-DASL_CPUS = ['6800', '6802', '87c70', '4004', '4040']
+DASL_CPUS = ['6800', '6802', '87C00', '4004', '87C00']
 
 
 def pool_f():
     return [('F', i) for i in range(N_DASL)]
+
+
+# pool G: dasl two-byte opcode sweep (first byte x every 5th second byte, then a zero tail), entry at the first byte
+G_CPUS = ['6800', '87C00', '4004']
+
+
+def pool_g():
+    return [('G', c, b0, b1) for c in G_CPUS for b0 in range(256) for b1 in range(0, 256, 5)]
+
+
+def case_g(ctx, member):
+    out = ctx.out
+    _, cpu, b0, b1 = member
+    ctx.write('g.bin', bytes([b0, b1, 0x10, 0x00, 0x00, 0x01, 0x00, 0x00]))
+    r = ctx.run('dasl', ['-cpu', cpu, '-binfile', 'g.bin@256', '-entryaddress', '256'], timeout=12)
+    out.obs['tool_runs'] += 1
+    tag = 'G:%s:%02x%02x' % (cpu, b0, b1)
+    if r.timed_out:
+        out.violate('hang:dasl:%s:opcode-prefix-%02x' % (cpu, b0), 'dasl -cpu %s on bytes %02x %02x 10 00 00 01 00 00: no exit within 12 s and 60 s' % (cpu, b0, b1))
+        return
+    if r.san:
+        out.violate(r.san, '%s: %s' % (tag, r.err.decode('latin-1')[-500:]))
+        return
+    if r.rc not in (0, 1, 2, 3, 4):
+        out.violate('exit-status-undocumented:dasl:%s' % r.rc, tag)
+        return
+    out.sigs.add(tag)
 
 
 # ---------------------------------------------------------------------------
@@ -383,11 +428,11 @@ _POOLS = None
 def pools():
     global _POOLS
     if _POOLS is None:
-        _POOLS = {'A': pool_a(), 'B': pool_b(), 'C': pool_c(), 'D': pool_d(), 'E': pool_e(), 'F': pool_f()}
+        _POOLS = {'A': pool_a(), 'B': pool_b(), 'C': pool_c(), 'D': pool_d(), 'E': pool_e(), 'F': pool_f(), 'G': pool_g()}
     return _POOLS
 
 
-QUICK_SAMPLE = {'A': 500, 'B': 2000, 'C': 300, 'D': 200, 'E': 1500, 'F': 150}
+QUICK_SAMPLE = {'A': 500, 'B': 2000, 'C': 300, 'D': 200, 'E': 1500, 'F': 150, 'G': 1200}
 
 
 def plan(tier, seed):
@@ -405,7 +450,7 @@ def plan(tier, seed):
             n = min(QUICK_SAMPLE[k], len(members))
             chosen = rng.sample(members, n)
         # group small members so that one worker call handles a batch (cheap cases)
-        bs = {'A': 1, 'B': 40, 'C': 10, 'D': 20, 'E': 40, 'F': 20}[k]
+        bs = {'A': 1, 'B': 40, 'C': 10, 'D': 20, 'E': 40, 'F': 20, 'G': 40}[k]
         for i in range(0, len(chosen), bs):
             cases.append({'pool': k, 'members': chosen[i:i + bs]})
     return cases
@@ -645,7 +690,7 @@ def run_case(case, ctx):
             _, cpu, t, c = member
             body = C_TEMPLATES[t]
             cval = C_COUNTS[c] if c >= 0 else ''
-            text = '\tcpu\t%s\n' % cpu + (body.format(c=cval) if c >= 0 else body.replace('{{', '{').replace('}}', '}'))
+            text = '\tcpu\t%s\n' % cpu + (body.format(c=cval, L=LONG_TOKEN) if c >= 0 else body.replace('{{', '{').replace('}}', '}').replace('{L}', LONG_TOKEN))
             if cpu == '68000':
                 text = text.replace('\tbyt\t', '\tdc.b\t').replace('\tdfs\t', '\tds.b\t')
             claim = not big_count(cval)
@@ -659,5 +704,7 @@ def run_case(case, ctx):
             case_e(ctx, member)
         elif k == 'F':
             case_f(ctx, member)
+        elif k == 'G':
+            case_g(ctx, member)
         out.sets['pools'].add(k)
     out.nontrivial = True
